@@ -61,9 +61,12 @@ static char *unesc(const char *s, char *out) {      /* in-place safe: out may eq
   }
   *o = 0; return out;
 }
+static int lcall_changed = 0;
 static void pr_tail(long l1, long l2, const char *loc0) {
   const char *loc1 = setlocale(LC_NUMERIC, NULL);
-  printf(" live=%ld,%ld loc=", l1, l2); pr_esc(loc0); putchar(','); pr_esc(loc1); putchar('\n');
+  printf(" live=%ld,%ld loc=", l1, l2); pr_esc(loc0); putchar(','); pr_esc(loc1);
+  if (lcall_changed) printf(" lcall=1");      /* setlocale(LC_ALL, NULL) differs from before the call */
+  putchar('\n'); lcall_changed = 0;
 }
 static void pr_cd(struct compoundData *cd) {
   printf("ok n=%d", cd->nElements);
@@ -80,10 +83,13 @@ static void pr_err(xrl_error **e) {
 static void do_parse(const char *locname, const char *str) {
   static char loc0[256];
   xrl_error *e = NULL;
-  if (!setlocale(LC_NUMERIC, locname)) { printf("bad-locale\n"); return; }
+  /* the whole process locale is `locname` (all categories), so that a parser that touches a category other than LC_NUMERIC is seen */
+  if (!setlocale(LC_ALL, locname) || !setlocale(LC_NUMERIC, locname)) { printf("bad-locale\n"); return; }
   strncpy(loc0, setlocale(LC_NUMERIC, NULL), sizeof loc0 - 1);
+  static char all0[512]; strncpy(all0, setlocale(LC_ALL, NULL), sizeof all0 - 1);
   long base = live_blocks;
   struct compoundData *cd = CompoundParser(str, &e);
+  lcall_changed = strcmp(all0, setlocale(LC_ALL, NULL)) != 0;
   if (cd) {
     pr_cd(cd);
     if (e) { printf(" SPURIOUS-ERROR"); xrl_clear_error(&e); }
